@@ -147,7 +147,7 @@ def block_strategy():
                      gen.block(max_len=14, profile=gen.ARITH_PROFILE),
                      gen.block(max_len=20, profile=gen.MEM_PROFILE),
                      gen.block(max_len=26, profile=gen.SPLIT_PROFILE),
-                     gen.corpus_block(), gen.operand_split_block(), gen.kept_loads_block(), gen.two_store_block())
+                     gen.corpus_block(), gen.operand_split_block(), gen.kept_loads_block(), gen.two_store_block(), gen.dead_load_by_rule_block())
 
 
 def shard_random(n, sd, backends):
